@@ -387,7 +387,29 @@ func genOps(t *rapid.T, n int, allowReopen bool, startProto bool) []c09Op {
 	protoMode := startProto
 	for k := 0; k < n; k++ {
 		var op c09Op
-		switch rapid.IntRange(0, 19).Draw(t, "opkind") {
+		switch rapid.IntRange(0, 21).Draw(t, "opkind") {
+		case 20:
+			// a long contiguous run (raft appends in batches of up to 1024; truncation deletes long ranges)
+			op.Kind = "storelogs"
+			idx := genIndex(t, used)
+			cnt := rapid.IntRange(90, 330).Draw(t, "bulk")
+			for j := 0; j < cnt; j++ {
+				e := c09Entry{Index: idx, Term: uint64(j % 3), Type: uint8(1 + j%4), Data: []byte{byte(j)}}
+				op.Entries = append(op.Entries, e)
+				if j%16 == 0 {
+					used = append(used, idx)
+				}
+				idx++
+			}
+		case 21:
+			// a long range deletion
+			op.Kind = "delrange"
+			if len(used) > 0 {
+				op.Min = used[rapid.IntRange(0, len(used)-1).Draw(t, "longdela")]
+			} else {
+				op.Min = 1
+			}
+			op.Max = op.Min + uint64(rapid.IntRange(60, 500).Draw(t, "longdelspan"))
 		case 0, 1, 2, 3:
 			op.Kind = "storelogs"
 			cnt := rapid.IntRange(1, 8).Draw(t, "batch")
